@@ -10,6 +10,9 @@ def sh(c): return subprocess.run(c, shell=True, text=True, stdout=subprocess.PIP
 assert sh("git -C /repo diff --quiet").returncode == 0, "/repo dirty"
 patch = "/verif/seeded/%s/patch.diff" % name
 res = {}
+import shutil, tempfile
+evidence_backup = tempfile.mkdtemp(prefix='verif_evid_')
+shutil.copytree('/verif/evidence', evidence_backup + '/e')
 try:
     r = sh("git -C /repo apply " + patch)
     assert r.returncode == 0, r.stdout
@@ -22,6 +25,8 @@ try:
         res[pid] = dict(verdict=verdict, seed=int(seed), first_failure=first[:300])
 finally:
     sh("git -C /repo checkout -- .")
+    # evidence files must describe runs on the unchanged tree only
+    shutil.rmtree("/verif/evidence", ignore_errors=True); shutil.copytree(evidence_backup + "/e", "/verif/evidence"); shutil.rmtree(evidence_backup, ignore_errors=True)
 assert sh("git -C /repo diff --quiet").returncode == 0
 mp = "/verif/seeded/%s/meta.json" % name
 meta = json.load(open(mp)) if os.path.exists(mp) else {}
